@@ -21,6 +21,7 @@ def assoc(o: int, a: int, b: int, c: int) -> bool:
     pre: 0 <= o < 3 and 0 <= a < 4 and 0 <= b < 4 and 0 <= c < 4
     post: _
     """
+    xs.path_start()
     op, x, y, z = OPS[xs.pick(o, 0, 3)], D[xs.pick(a, 0, 4)], D[xs.pick(b, 0, 4)], D[xs.pick(c, 0, 4)]
     l, r = _call(op, _call(op, x, y), z), _call(op, x, _call(op, y, z))
     xs.reached()
@@ -34,6 +35,7 @@ def comm(o: int, a: int, b: int) -> bool:
     pre: 0 <= o < 3 and 0 <= a < 4 and 0 <= b < 4
     post: _
     """
+    xs.path_start()
     op, x, y = OPS[xs.pick(o, 0, 3)], D[xs.pick(a, 0, 4)], D[xs.pick(b, 0, 4)]
     l, r = _call(op, x, y), _call(op, y, x)
     xs.reached()
@@ -47,6 +49,7 @@ def neutral_id(o: int, a: int) -> bool:
     pre: 0 <= o < 3 and 0 <= a < 4
     post: _
     """
+    xs.path_start()
     op, x = OPS[xs.pick(o, 0, 3)], D[xs.pick(a, 0, 4)]
     l, r = _call(op, x, CFV.NEUTRAL), _call(op, CFV.NEUTRAL, x)
     xs.reached()
@@ -60,6 +63,7 @@ def boolean(o: int, p: bool, q: bool) -> bool:
     pre: 0 <= o < 3
     post: _
     """
+    xs.path_start()
     o = xs.pick(o, 0, 3)
     op = OPS[o]
     x = CFV.FULFILLED if p else CFV.UNFULFILLED
@@ -78,6 +82,7 @@ def closure(o: int, a: int, b: int) -> bool:
     pre: 0 <= o < 3 and 0 <= a < 4 and 0 <= b < 4
     post: _
     """
+    xs.path_start()
     op, x, y = OPS[xs.pick(o, 0, 3)], D[xs.pick(a, 0, 4)], D[xs.pick(b, 0, 4)]
     got = _call(op, x, y)
     xs.reached()
@@ -91,6 +96,7 @@ def sound(o: int, a: int, b: int, ra: bool, rb: bool) -> bool:
     pre: 0 <= o < 3 and 0 <= a < 4 and 0 <= b < 4
     post: _
     """
+    xs.path_start()
     op, x, y = OPS[xs.pick(o, 0, 3)], D[xs.pick(a, 0, 4)], D[xs.pick(b, 0, 4)]
     got = _call(op, x, y)
     x2 = (CFV.FULFILLED if ra else CFV.UNFULFILLED) if x is CFV.UNKNOWN else x
@@ -112,6 +118,7 @@ def monotone(o: int, a: int, b: int, ra: bool, rb: bool) -> bool:
     pre: 0 <= o < 3 and 0 <= a < 4 and 0 <= b < 4
     post: _
     """
+    xs.path_start()
     op, x, y = OPS[xs.pick(o, 0, 3)], D[xs.pick(a, 0, 4)], D[xs.pick(b, 0, 4)]
     x2 = (CFV.FULFILLED if ra else CFV.UNFULFILLED) if x is CFV.UNKNOWN else x
     y2 = (CFV.FULFILLED if rb else CFV.UNFULFILLED) if y is CFV.UNKNOWN else y
